@@ -283,3 +283,29 @@ package linkedhashset
 //@     invariant ItInv(iterator) && iterator.iterator.list == set.ordering && fresh(iterator)
 //@     invariant forall j :: 0 <= j && j <= iterator.iterator.index && j < N(set) ==> !f(j, K(set)[j])
 //@     decreases N(set) - iterator.iterator.index
+
+// ---- Select / Map (C14) ----
+
+//@ func Set.Select
+//@   requires Inv(set) && f != nil
+//@   modifies nothing
+//@   ensures [C14 C16 C17 C18] fresh(result) && Inv(result) && fresh(result.table) && fresh(result.ordering)
+//@   ensures [C14] members: forall x like keyof(set.table) :: Mem(result, x) <==> Mem(set, x) && f(set.rank[x], x)
+//@   ensures [C14] order: forall a, b :: 0 <= a && a < b && b < N(result) ==> set.rank[K(result)[a]] < set.rank[K(result)[b]]
+//@   loop 1:
+//@     invariant ItInv(iterator) && iterator.iterator.list == set.ordering && fresh(iterator) && fresh(newSet) && Inv(newSet) && fresh(newSet.table) && fresh(newSet.ordering) && newSet != set
+//@     invariant forall x like keyof(set.table) :: Mem(newSet, x) <==> Mem(set, x) && set.rank[x] <= iterator.iterator.index && f(set.rank[x], x)
+//@     invariant forall a, b :: 0 <= a && a < b && b < N(newSet) ==> set.rank[K(newSet)[a]] < set.rank[K(newSet)[b]]
+//@     invariant forall a :: 0 <= a && a < N(newSet) ==> Mem(newSet, K(newSet)[a])
+//@     decreases N(set) - iterator.iterator.index
+
+//@ -- Map: the result holds every mapped element (deduplicated by Add)
+//@ func Set.Map
+//@   requires Inv(set) && f != nil
+//@   modifies nothing
+//@   ensures [C14 C16 C17 C18] fresh(result) && Inv(result) && fresh(result.table) && fresh(result.ordering) && N(result) <= N(set)
+//@   ensures [C14] all: forall j :: 0 <= j && j < N(set) ==> Mem(result, f(j, K(set)[j]))
+//@   loop 1:
+//@     invariant ItInv(iterator) && iterator.iterator.list == set.ordering && fresh(iterator) && fresh(newSet) && Inv(newSet) && fresh(newSet.table) && fresh(newSet.ordering) && newSet != set && N(newSet) <= min(iterator.iterator.index + 1, N(set))
+//@     invariant forall j :: 0 <= j && j <= iterator.iterator.index && j < N(set) ==> Mem(newSet, f(j, K(set)[j]))
+//@     decreases N(set) - iterator.iterator.index
